@@ -547,7 +547,7 @@ func (s *sim) finish(spinOff bool) string {
 	if !s.started {
 		s.startRun()
 	}
-	if !drain(20 * time.Second) {
+	if !drain(60 * time.Second) {
 		return "simulation did not finish after the last request"
 	}
 	if p := s.engPanic.Load(); p != nil {
@@ -720,6 +720,9 @@ func init() {
 				flush(s, i)
 				s.close()
 				res.Scenarios++
+				if len(res.Hangs) >= 3 {
+					break // the verdict is settled; every further hang costs a minute
+				}
 			}
 		case "free":
 			rng := rand.New(rand.NewSource(in.Seed))
@@ -766,6 +769,9 @@ func init() {
 				flush(s, i)
 				s.close()
 				res.Scenarios++
+				if len(res.Hangs) >= 3 {
+					break
+				}
 			}
 		case "race":
 			want, err := baseline(in.NWork, in.Gap)
